@@ -312,7 +312,9 @@ fn session(args: &[String]) {
     }
     let stdout = std::io::stdout();
     let mut out = std::io::BufWriter::new(stdout.lock());
-    hx::quiet_panics();
+    if std::env::var("C04_LOUD").is_err() {
+        hx::quiet_panics();
+    }
     let o = LsmtkOptions::from_arguments_relaxed("c04", &a).0;
     let opened = std::panic::catch_unwind(|| KeyValueStore::open(o));
     let kvs = match opened {
